@@ -224,6 +224,49 @@ def lookup_cycle_possible(formulas, cols):
   return False
 
 
+def swallowed_cycle_possible(formulas, cols):
+  """A same-row reference cycle ($X / rec.X without a further dereference, through formula columns AND trigger
+  formulas of data columns) that passes through a formula which swallows exceptions (IFERROR, try/except): the
+  CircularRefError - or the engine's internal re-ordering exception - is then caught by user code, and which cell
+  ends up with which value depends on the evaluation order. `formulas` = {(table, col): text} for every column with
+  a formula text (trigger formulas included)."""
+  def succ(k):
+    t, _ = k
+    out = []
+    for name in _re.findall(r'(?:\$|\brec\.)([A-Za-z_]\w*)\b(?!\s*\.)', formulas.get(k, '') or ''):
+      if (t, name) in formulas:
+        out.append((t, name))
+    return out
+
+  def swallows(k):
+    f = formulas.get(k, '') or ''
+    return 'IFERROR' in f or 'except' in f
+
+  for c0 in cols:
+    # depth-first search for a cycle reachable from c0 containing a swallowing formula
+    stack = [(c0, [c0])]
+    seen = set()
+    while stack:
+      k, path = stack.pop()
+      for n in succ(k):
+        if n in path:
+          cyc = path[path.index(n):]
+          if any(swallows(x) for x in cyc):
+            return True
+          continue
+        if (n, len(path)) in seen or len(path) > 8:
+          continue
+        seen.add((n, len(path)))
+        stack.append((n, path + [n]))
+  return False
+
+
+def all_formulas(doc):
+  """{(tableId, colId): text} for every column that has a formula text (trigger formulas of data columns too)."""
+  tmap = {t['id']: t['tableId'] for t in doc.tables_meta()}
+  return {(tmap.get(c['parentId']), c['colId']): c['formula'] for c in doc.columns_meta() if c['formula']}
+
+
 def cycle_filter(cells, kind_of, formulas=None):
   """Differing cells that are not judged because a dependency cycle is involved: pairs of two errors of which
   one is CircularRefError, and - when some differing pair has CircularRefError on one side only AND the formulas
@@ -236,6 +279,9 @@ def cycle_filter(cells, kind_of, formulas=None):
     fcols = [(x[0], x[1]) for x in real if kind_of(x[0], x[1]) in ('formula', 'helper')]
     if formulas is None or lookup_cycle_possible(formulas, fcols):
       real = [x for x in real if kind_of(x[0], x[1]) not in ('formula', 'helper')]
+    elif swallowed_cycle_possible(formulas, [(x[0], x[1]) for x in real]):
+      # (data cells of trigger columns on such a cycle are part of it)
+      real = [x for x in real if not (_is_circ(x[3]) or _is_circ(x[4]) or kind_of(x[0], x[1]) in ('formula', 'helper'))]
   return real, len(real) < len(cells)
 
 
@@ -330,6 +376,8 @@ def summary_groupby_record_valued(doc, table_id):
       for v in rep[3].get(c['colId'], []):
         if isinstance(v, list) and v and v[0] != 'L':
           return True
+        if isinstance(v, float) and v != v:        # NaN never equals itself: it cannot be matched as a group key
+          return True
       src = cols.get(c['summarySourceCol'])
       if src:
         is_list_col = src['type'].split(':')[0] in ('ChoiceList', 'RefList')
@@ -338,6 +386,8 @@ def summary_groupby_record_valued(doc, table_id):
         for v in src_rep[3].get(src['colId'], []):
           # errors, records (anywhere); lists in a scalar column of the source
           if isinstance(v, list) and v and (v[0] != 'L' or not is_list_col):
+            return True
+          if isinstance(v, float) and v != v:
             return True
   return False
 
